@@ -20,6 +20,7 @@
   (`uadd_eq_wf` discharges it for well-formed operands). Proofs: `Proofs/GenKernels.lean`.
 -/
 import Proofs.GenKernels
+import Proofs.GenConv
 
 namespace Decimal.CGenK
 
@@ -76,6 +77,26 @@ theorem uquo_eq (z x y : WDec) (t : Thr) (hp : z.prec < 4294967296) (hx : I32 x.
 theorem dnorm_shift_le (m m' : List Nat) (s : Nat) (hw : L0.WF m) (h : W.dnorm m = .ok (m', s)) : s ≤ 19 :=
   GenKernels.dnorm_shift_le m m' s hw h
 
+/-! ### the saturating conversions (regenerated decision logic of `Int64`, `Uint64`, `Abs`) -/
+
+/-- `Int64` as regenerated — the form switch, `exp <= 0`, `exp <= 20`, the 64-bit fit of the integer part, the
+    `t&(1<<63) == 0 || (x.neg && t == 1<<63)` test, the negation in wrapping int64, the accuracy from
+    `x.MinPrec() <= uint(x.exp)` and both saturation values — is the model's `toInt64`, for every x. -/
+theorem int64_eq (x : Dec) (tv : Nat) (hexp : -2147483648 ≤ x.exp ∧ x.exp ≤ 2147483647)
+    (ht : intMant x < 2 ^ 64 → tv = intMant x) :
+    Gen.Facts.Int64 x.form.toNat x.neg x.exp (minPrec x) tv (decide (intMant x < 2 ^ 64)) = some (toInt64 x) :=
+  GenConv.int64_eq x tv hexp ht
+
+theorem uint64_eq (x : Dec) (rv : Nat) (hexp : -2147483648 ≤ x.exp ∧ x.exp ≤ 2147483647)
+    (ht : intMant x < 2 ^ 64 → rv = intMant x) :
+    Gen.Facts.Uint64 x.form.toNat x.neg x.exp (minPrec x) rv (decide (intMant x < 2 ^ 64)) = some (toUint64 x) :=
+  GenConv.uint64_eq x rv hexp ht
+
+theorem abs_eq (z x : Dec) (same : Bool) :
+    Decimal.abs z x same =
+      { Decimal.set z x same with neg := (Gen.Facts.Abs (Decimal.set z x same).neg z.neg).zNeg } :=
+  GenConv.abs_eq z x same
+
 /-! ### the hypotheses are satisfiable; the re-assembled kernels compute -/
 
 private def xEx : WDec := { form := .finite, mant := [2500000000000000000, 1234567890123456789], exp := 3, prec := 40 }
@@ -103,5 +124,8 @@ private def same (a b : Except String WDec) : Bool := toString (repr a) == toStr
 #print axioms umul_eq
 #print axioms uquo_eq
 #print axioms dnorm_shift_le
+#print axioms int64_eq
+#print axioms uint64_eq
+#print axioms abs_eq
 
 end Decimal.CGenK
